@@ -7,6 +7,7 @@ set -u
 OUT="$1"; shift
 WT=/tmp/confirm-wt
 export CARGO_NET_OFFLINE=true
+export CARGO_INCREMENTAL=0   # an incremental-compilation ICE of rustc 1.95 once turned a demo into a false FAIL
 if [ ! -d $WT ]; then git -C /repo worktree add --detach $WT HEAD >/dev/null 2>&1 || exit 2; fi
 git -C $WT checkout -q --detach "$(git -C /repo rev-parse HEAD)"; git -C $WT checkout -q -- . ; rm -f $WT/tests/demo_*.rs
 export CARGO_TARGET_DIR=/tmp/confirm-target
